@@ -5,3 +5,4 @@ import RoProps.C08s
 import RoProps.C12
 import RoProps.C14
 import RoProps.C09
+import RoProps.C13
